@@ -4,6 +4,7 @@ CONSTANTS
   T = 2
   DbIds = {"com", "x.com", "w.y.com", "a.x.com", "F2", "io"}
   EmitOn = FALSE
+  ImplOnly = FALSE
 VIEW GraphView
 INVARIANTS TypeOK CacheTransparent RefAdmissible
 PROPERTIES StepProps
